@@ -83,6 +83,22 @@ func (p *Path) mapFind(m *Map, k Value) *MapEntry {
 // over-approximates the table (sound for unsat verdicts); exact reasoning over the
 // table (C18) constrains k to the key set and uses ground facts.
 func (p *Path) bigMapFind(m *Map, k *Term) *MapEntry {
+	if p.exactTables {
+		// exact: membership in the key set, value as an ite chain over the table
+		keys := make([]string, 0, len(m.entries))
+		for _, e := range m.entries {
+			keys = append(keys, e.k.(*Term).S)
+		}
+		if !p.branch(memberOf(k, keys), "table-member") {
+			return nil
+		}
+		var val *Term = mkStr("")
+		for i := len(m.entries) - 1; i >= 0; i-- {
+			e := m.entries[i]
+			val = mkIte(mkEq(k, e.k.(*Term)), e.v.(*Term), val)
+		}
+		return &MapEntry{k: k, v: val}
+	}
 	name := registerBigMap(m)
 	val := mkUF(name, SStr, k)
 	if !p.branch(mkNot(mkEq(val, mkStr(""))), "bigmap-member") {
